@@ -1,3 +1,4 @@
 SHIMS_ub += safeint_check
 VDRIVER := build/vd/vdriver
 FUZZERS += fuzz_nlread
+FUZZERS += fuzz_solread
